@@ -665,6 +665,9 @@ func init() {
 			{Entry: "VerifC08Graveyard", Params: map[string]int{"N": 3, "NIT": 0}, Covers: []string{"C08.end"}, NoNative: true, Preempt: 0, Deadlock: true},
 			{Entry: "VerifC08Graveyard", Params: map[string]int{"N": 2, "NIT": 2}, Covers: []string{"C08.end"}, NoNative: true, Preempt: 0, Deadlock: true},
 			{Entry: "VerifC08Graveyard", Params: map[string]int{"N": 2, "NIT": 2, "EARLY": 1}, Covers: []string{"C08.end"}, NoNative: true, Preempt: 0, Deadlock: true},
+			// steps 5 (new iterator) and 6 (catch up through a WriteTxn with a pending delete); scripted prefix: delete, close all iterators
+			{Entry: "VerifC08Graveyard", Params: map[string]int{"N": 3, "NIT": 1, "SCRIPT": 1, "STEPMAX": 6, "CAS": 0}, Covers: []string{"C08.new-iterator", "C08.end"}, NoNative: true, Preempt: 0, Deadlock: true},
+			{Entry: "VerifC08Graveyard", Params: map[string]int{"N": 2, "NIT": 2, "STEPMAX": 6, "CAS": 0}, Covers: []string{"C08.next-with-writetxn", "C08.end"}, NoNative: true, Preempt: 0, Deadlock: true},
 		},
 		Thorough: []HarnessRun{
 			{Entry: "VerifC08Graveyard", Params: map[string]int{"N": 3, "NIT": 2, "EARLY": 1}, Covers: []string{"C08.end"}, NoNative: true, Preempt: 0, Deadlock: true},
@@ -724,6 +727,7 @@ func init() {
 	big2 := map[string]int{"R": 3, "KEYS": 1, "W": 3, "F": 3, "INJECT": 1, "TWO": 1}
 	bo := map[string]int{"R": 2, "KEYS": 1, "W": 1, "F": 3, "INJECT": 0, "MINB": 2, "MAXB": 8}
 	probe := HarnessRun{Entry: "VerifKFRetryStatusLost"}
+	pruneRun := HarnessRun{Entry: "VerifC15Prune", Covers: []string{"C15.prune.end"}, NoNative: true, Deadlock: true}
 	outside := []string{"outside: refreshLoop, prune cadence, rate limiters (stubbed), hive job restarts, real time (virtual discrete-event time); more than R symbolic rounds + K quiescent rounds, 2 keys, F failure decisions, W user writes; the reconcile loop's select is replaced by the harness calling incremental.run round by round (the real run/commitStatus/processRetries/retries code is executed); choices are explicit forks (payload values symbolic), so the solver contributes little beyond path bookkeeping",
 		"VM-only vocabulary (virtual time): counterexamples of VerifC14Rounds are replayed concretely in the VM; VerifKFRetryStatusLost also replays natively"}
 	reg(&CheckSpec{ID: "C14", PkgDir: "reconciler",
@@ -732,16 +736,17 @@ func init() {
 		Known:    []KnownProbe{{ID: "KF-retry-status-lost", Entry: "VerifKFRetryStatusLost"}},
 		Outside:  outside})
 	reg(&CheckSpec{ID: "C15", PkgDir: "reconciler",
-		Quick:    []HarnessRun{rounds(15, base), rounds(15, two), rounds(15, batch), rounds(15, sset), probe},
-		Thorough: []HarnessRun{rounds(15, big), rounds(15, big2), rounds(15, batch), probe},
-		Outside:  append([]string{"Prune gating (only after Initialized, complete contents) is not exercised: the harness drives incremental.run, not reconcileLoop"}, outside...)})
+		Quick:    []HarnessRun{rounds(15, base), rounds(15, two), rounds(15, batch), rounds(15, sset), probe, pruneRun},
+		Thorough: []HarnessRun{rounds(15, big), rounds(15, big2), rounds(15, batch), rounds(15, sset), probe, pruneRun},
+		Outside:  append([]string{"Prune gating: VerifC15Prune runs the real reconcileLoop as a VM thread under virtual time (10 ms prune interval, pending initializer for 0..3 periods, optional explicit Prune() before initialization)"}, outside...)})
 	reg(&CheckSpec{ID: "C16", PkgDir: "reconciler",
 		Quick: []HarnessRun{
 			{Entry: "VerifC16Retries", Params: map[string]int{"N": 3}, Covers: []string{"C16.popped", "C16.timer-fired", "C16.retries.end"}, NoNative: true, Deadlock: true},
 			{Entry: "VerifC16Retries", Params: map[string]int{"N": 4, "OPS": 3, "NOBJ": 2}, Covers: []string{"C16.popped", "C16.retries.end"}, NoNative: true, Deadlock: true},
 			{Entry: "VerifC16Backoff", Covers: []string{"C16.backoff.end"}, DiffRuns: 2},
-			rounds(16, base), rounds(16, bo)},
+			rounds(16, base), rounds(16, bo), rounds(16, rs1)},
 		Thorough: []HarnessRun{
+			rounds(16, rs1),
 			{Entry: "VerifC16Retries", Params: map[string]int{"N": 4}, Covers: []string{"C16.popped", "C16.timer-fired", "C16.retries.end"}, NoNative: true, Deadlock: true},
 			{Entry: "VerifC16Backoff", Covers: []string{"C16.backoff.end"}, DiffRuns: 2},
 			rounds(16, big), rounds(16, bo)},
